@@ -82,7 +82,12 @@ _REAL = {'monotonicTime': so.monotonicTime, 'random': so.random}
 
 def install(clock=None, inp=None):
     so.monotonicTime = clock if clock is not None else _REAL['monotonicTime']
-    so.random = FakeRandom(inp) if inp is not None else _REAL['random']
+    if inp is not None:
+        if getattr(inp, '_rnd', None) is None:
+            inp._rnd = FakeRandom(inp)
+        so.random = inp._rnd
+    else:
+        so.random = _REAL['random']
 
 
 def make(selfid, others, clock=None, inp=None, cls=SyncObj, consumers=None, conf=None, **confkw):
